@@ -32,8 +32,14 @@ pub fn run(args: &Args) {
   let mut rng = Rng::new(seed);
   // the keys raced in this process: a few depths of each table
   let mut keys: Vec<(u8, u8)> = Vec::new();
-  for _ in 0..(2 + rng.below(4)) { keys.push((vh::TABLE_LAYER, rng.below(30) as u8)); }
-  for _ in 0..(1 + rng.below(3)) { keys.push((vh::TABLE_C2V, 1 + rng.below(29) as u8)); }
+  if seed % 4 == 0 {
+    // every depth of both tables: 59 racing first uses in one process
+    for d in 0..30u8 { keys.push((vh::TABLE_LAYER, d)); }
+    for d in 1..30u8 { keys.push((vh::TABLE_C2V, d)); }
+  } else {
+    for _ in 0..(2 + rng.below(4)) { keys.push((vh::TABLE_LAYER, rng.below(30) as u8)); }
+    for _ in 0..(1 + rng.below(3)) { keys.push((vh::TABLE_C2V, 1 + rng.below(29) as u8)); }
+  }
   keys.sort(); keys.dedup();
   let keys = Arc::new(keys);
   let barrier = Arc::new(Barrier::new(nthreads));
@@ -68,6 +74,10 @@ pub fn run(args: &Args) {
             spins += 1;
             if spins > 2000 { std::thread::yield_now(); } else { std::hint::spin_loop(); }
           }
+          // staggered starts (0 .. 512 spin iterations): some threads take the unsynchronised fast path while the
+          // winner of the Once is still storing the object
+          let span = (1u64 << trng.below(11)) >> 1;
+          for _ in 0..trng.below(span + 1) { std::hint::spin_loop(); }
         }
         let r = guarded(|| {
           if tb == vh::TABLE_LAYER && (t + step) % 2 == 1 {
